@@ -479,12 +479,115 @@ pub fn auth(trace: &[Value]) -> Vec<Value> {
     out
 }
 
+fn cap(v: &Value) -> i64 {
+    v.as_i64().unwrap_or_else(|| if v.as_u64().is_some() { 1 << 30 } else { 0 }).min(1 << 30)
+}
+
+fn side_of(n: i64) -> &'static str {
+    if n == 0 {
+        "s"
+    } else {
+        "c"
+    }
+}
+
+/// C05: sender-side flow control ledger for one client <-> server pair
+pub fn flow(trace: &[Value]) -> Vec<Value> {
+    let mut out = vec![json!({"ev":"Reset","run":trace[0]["run"]})];
+    for e in trace {
+        let n = e["n"].as_i64().unwrap_or(-1);
+        if n > 1 {
+            continue;
+        }
+        match e["ev"].as_str().unwrap_or("") {
+            "TP" => out.push(json!({"ev":"TP","side":side_of(n),"md":cap(&e["md"]),"sdbl":cap(&e["sdbl"]),
+                "sdbr":cap(&e["sdbr"]),"sduni":cap(&e["sduni"]),"msb":cap(&e["msb"]),"msu":cap(&e["msu"])})),
+            "Tx" => {
+                let mut fr = Vec::new();
+                for p in pkts_of(e) {
+                    // 0-RTT packets are sent under remembered parameters: not part of this ledger
+                    if p["ty"] == "Z" {
+                        continue;
+                    }
+                    for f in frames_of(p) {
+                        if f["f"] == "STREAM" {
+                            fr.push(json!({"k":"stream","id":f["id"],
+                                "end":f["off"].as_i64().unwrap_or(0) + f["len"].as_i64().unwrap_or(0)}));
+                        } else if f["f"] == "RESET_STREAM" {
+                            fr.push(json!({"k":"reset","id":f["id"],"end":cap(&f["fin"])}));
+                        }
+                    }
+                }
+                if !fr.is_empty() {
+                    out.push(json!({"ev":"Sent","side":side_of(n),"fr":fr}));
+                }
+            }
+            "Rx" if e["kind"] == "conn" => {
+                let dfr = &e["dfr"];
+                let genuine = matches!(e["cls"].as_str().unwrap_or(""), "gen" | "dup" | "spoof" | "inject");
+                if !genuine {
+                    continue;
+                }
+                let mut fr = Vec::new();
+                if let Some(pk) = e["pk"].as_array() {
+                    for p in pk {
+                        for f in frames_of(p) {
+                            if f["f"] == "MAX_DATA" && dfr[8].as_i64().unwrap_or(0) > 0 {
+                                fr.push(json!({"k":"md","id":0,"v":cap(&f["v"])}));
+                            } else if f["f"] == "MAX_STREAM_DATA" && dfr[9].as_i64().unwrap_or(0) > 0 {
+                                fr.push(json!({"k":"msd","id":f["id"],"v":cap(&f["v"])}));
+                            } else if f["f"] == "MAX_STREAMS" {
+                                let uni = f["uni"] == true;
+                                if dfr[if uni { 11 } else { 10 }].as_i64().unwrap_or(0) > 0 {
+                                    fr.push(json!({"k":if uni { "msu" } else { "msb" },"id":0,"v":cap(&f["v"])}));
+                                }
+                            }
+                        }
+                    }
+                }
+                if !fr.is_empty() {
+                    out.push(json!({"ev":"MaxArr","side":side_of(n),"fr":fr}));
+                }
+            }
+            "Call" if e["op"] == "write" => {
+                let st = &e["pre"]["streams"];
+                let id = e["id"].as_i64().unwrap_or(-1);
+                let mut scredit: i64 = -1;
+                if let Some(a) = st["send"].as_array() {
+                    for s in a {
+                        if s["id"].as_i64() == Some(id) {
+                            scredit = cap(&s["md"]) - cap(&s["off"]);
+                        }
+                    }
+                }
+                let ccredit = (cap(&st["md"]) - cap(&st["ds"])).max(0);
+                let wcredit = (cap(&st["sw"]) - cap(&st["ua"])).max(0);
+                let closed = e["pre"]["st"].as_i64().unwrap_or(0) >= 2;
+                out.push(json!({"ev":"Write","side":side_of(n),"id":id,"len":cap(&e["len"]),
+                    "res":e["res"]["k"],"n":e["res"].get("n").map_or(0, cap),
+                    "scredit":scredit,"ccredit":ccredit,"wcredit":wcredit,"closed":closed}));
+            }
+            "Call" if e["op"] == "open" => {
+                let st = &e["pre"]["streams"];
+                let d = e["dir"].as_u64().unwrap_or(0) as usize;
+                let closed = e["pre"]["st"].as_i64().unwrap_or(0) >= 2;
+                out.push(json!({"ev":"Open","side":side_of(n),"dir":d,"some":e["res"]["k"] == "Some",
+                    "id":e["res"].get("id").map_or(-1, cap),
+                    "next":cap(&st["next"][d]),"max":cap(&st["max"][d]),"closed":closed}));
+            }
+            _ => {}
+        }
+    }
+    out
+}
+
 pub fn project(name: &str, trace: &[Value]) -> Vec<Value> {
     match name {
         "lifecycle" => lifecycle(trace),
         "streamdata" => streamdata(trace),
         "antiamp" => antiamp(trace),
         "auth" => auth(trace),
+        "flow" => flow(trace),
         "master" => trace.to_vec(),
         o => panic!("unknown projection {o}"),
     }
